@@ -105,6 +105,14 @@ def _run(ctx):
     # helpers on the path
     seen = {recv.path, w.path, tc.path}
     todo = [w, tc]
+    # effect-free workspace helpers the Receive handler calls on the way to the arm (a sender classifier, an address validator)
+    for b, p, fr, t in P.calls(recv):
+        if b in to_call and b != callbb and roles.is_workspace_fn(P, p):
+            g = P.fn(p) or P.fn(generic_path(p))
+            if g is not None and g.path not in seen and common._effect_free(P, g, 0) and not roles.effects(P, g):
+                seen.add(g.path)
+                fns.append((g, None, "helper"))
+                todo.append(g)
     while todo:
         f = todo.pop()
         for b, p, fr, t in P.calls(f):
